@@ -646,8 +646,11 @@ namespace xsimd
         {
             using real_batch = batch<T_out, A>;
             T_in const* buffer = reinterpret_cast<T_in const*>(mem);
+            // when converting (T_in != T_out) the second half starts real_batch::size elements of T_in
+            // further, which is not a multiple of the register size.
             real_batch hi = real_batch::load_aligned(buffer),
-                       lo = real_batch::load_aligned(buffer + real_batch::size);
+                       lo = std::is_same<T_in, T_out>::value ? real_batch::load_aligned(buffer + real_batch::size)
+                                                             : real_batch::load_unaligned(buffer + real_batch::size);
             return detail::load_complex(hi, lo, A {});
         }
 
@@ -671,7 +674,11 @@ namespace xsimd
             real_batch lo = detail::complex_low(src, A {});
             T_out* buffer = reinterpret_cast<T_out*>(dst);
             lo.store_aligned(buffer);
-            hi.store_aligned(buffer + real_batch::size);
+            // when converting (T_in != T_out) the second half is not register-aligned.
+            if (std::is_same<T_in, T_out>::value)
+                hi.store_aligned(buffer + real_batch::size);
+            else
+                hi.store_unaligned(buffer + real_batch::size);
         }
 
         // store_complex_unaligned
